@@ -1,6 +1,8 @@
 (* C04 — A batch is all-or-nothing and, once committed, durable. *)
 From KV Require Import Bytes GenConsts Chunk Record Engine Script AMapLemmas EngineFiles EngineInv EngineBatch
-  EngineRefine EngineLog EngineRecover EngineSync EngineCrash.
+  EngineRefine EngineLog EngineRecover EngineSync EngineCrash Crc FileProofs ZeroProofs.
+From Coq Require Import List.
+Import ListNotations.
 Open Scope N_scope.
 
 (* What a batch adds to the log - its records, tagged with the batch id, in whatever pieces and
@@ -74,6 +76,33 @@ Theorem C04_sync_batch_is_flushed :
   SyncInv d' /\ (b_sync b = true -> b_staged b <> [] -> flushed (d_active d') /\ older_flushed d').
 Proof. exact batch_commit_sync. Qed.
 Print Assumptions C04_sync_batch_is_flushed.
+
+(* A power failure may lose unsynced pages in any order.  Byte level (model/Chunk.v, the reader of Open and Merge): a file
+   written from empty by any sequence of records; where the next record would begin (behind the block-tail padding when
+   the writer pads) a lost block reads back as zeros; behind those zeros ANY bytes - the later records of a batch and its
+   batch-finished record included.  The scan delivers exactly the records in front of the hole and ends as a torn tail:
+   a batch with a hole in it never meets its batch-finished record, so recovery shows none of it (the record-level
+   theorems above then apply to the log cut at the hole).  crc [0;0;0] <> 0 holds for CRC-32 (example below). *)
+Theorem C04_nothing_behind_a_lost_block_is_replayed :
+  forall crc, (forall b, crc b < 4294967296) -> crc [0; 0; 0] <> 0 ->
+  forall ds fid bs ps bid' bsz' behind,
+  Forall nonempty ds ->
+  write_all_buf crc fid 0 0 ds = (bs, ps, bid', bsz') ->
+  scan crc (bs ++ zeros (pad_len bsz') ++ z7 ++ behind) fid = (combine ds ps, STorn).
+Proof. exact scan_stops_at_hole. Qed.
+Print Assumptions C04_nothing_behind_a_lost_block_is_replayed.
+
+(* the hypothesis about the checksum holds for the checksum the engine uses, and the statement is not vacuous: one
+   record, a hole, then a complete valid record behind it - which the scan does not deliver *)
+Example C04_hole_nonvacuous :
+  crc32 [0; 0; 0] <> 0 /\
+  (let f1 := fst (df_write crc32 (df_open 0 []) [1; 2; 3]) in
+   let behind := zeros (32768 - 10 - 7) ++ df_bytes (fst (df_write crc32 (df_open 0 []) [4; 5])) in
+   match scan crc32 (df_bytes f1 ++ z7 ++ behind) 0 with
+   | ([(d, _)], STorn) => bytes_eqb d [1; 2; 3]
+   | _ => false
+   end = true).
+Proof. split; [vm_compute; discriminate|vm_compute; reflexivity]. Qed.
 
 Example C04_nonvacuous : (7 : N) <> 0 /\ Forall ok_type [mkRec rt_Normal [1] [2] 0; mkRec rt_Deleted [3] [] 0].
 Proof. split; [discriminate|repeat constructor]. Qed.
